@@ -40,7 +40,8 @@ class C10(Prop):
         "LIBERAL layout (RelGrammarAll.afield: white space token lists incl. CR, any </>/= run or none as operator, any non-empty IDENT/':' run "
         "as version, any '!'/name sequence in [...], any name | '!' ws name sequence in <...>, also empty, any IDENT/':' run in ${...}) whose tree "
         "is the tree read and whose content, with the accessors' documented panics, is what the accessors report (C10_image, C10_image_sound, "
-        "C10_image_iff, C10_image_unique); the well-formed fields embed (C10_image_embeds); the lexer's outputs are characterised (C10_lexable). "
+        "C10_image_iff, C10_image_unique); the well-formed fields embed (C10_image_embeds); the lexer's outputs are characterised (C10_lexable); "
+        "on EVERY tree the accessor model of cone C11 (RelEdit.structure) yields the same entries/alternatives as racc (C10_acc_is_structure, C10_image_structure). "
         "Nothing is partial.")
     level_note = ("Model: Lexer (debian-control/src/relations.rs), fn parse and the read accessors of debian-control/src/lossless/relations.rs "
                   "(coq/model/RelLex.v, RelParse.v, RelAcc.v); lossy reader: debian-control/src/lossy/relations.rs as modelled by the cone of C14 "
